@@ -9,9 +9,8 @@
    sequences and iteration times, early or late, no hypothesis on the schedule - including the
    interface-check interval at its default, very large, changed at run time and zero.
    The monitor chk_C12 compares the requested wake-up with due times computed from the
-   HISTORY by the per-question specification of SchedSpec.v; its theorem is stated for
-   hazard-free histories (on the others the specification's due list is a subset of the
-   model's, see the remark at chk_C12_monitor_holds). *)
+   HISTORY by the per-question specification of SchedSpec.v; its theorem, too, holds for all
+   well-formed histories. *)
 From Coq Require Import List NArith Bool.
 From Mdns Require Import Bytes ParamsSched Sched SchedSpec SchedParamsProofs SchedProofs SchedSpecProofs.
 Import ListNotations.
@@ -59,17 +58,10 @@ Theorem no_overdue_retransmission :
   1 <= r_delay r /\ st_clock s < r_time r /\ In (r_time r) (st_timers s).
 Proof. exact inv_ret. Qed.
 
-(* the monitor: on hazard-free histories the model's trace satisfies chk_C12.  (On a history
-   with the late-timeout hazard the model keeps a retransmission chain the specification has
-   ended; the model then has MORE timers than chk_C12 asks for, the wake-up is still covered
-   by wake_covers_work above, and no_spin does not depend on the hazard.) *)
+(* the monitor: on every well-formed history the model's trace satisfies chk_C12 *)
 Theorem chk_C12_monitor_holds :
-  forall t0 h, wf_hist t0 h = true -> hazard_free t0 h = true -> chk_C12 t0 h (model_run t0 h) = true.
+  forall t0 h, wf_hist t0 h = true -> chk_C12 t0 h (model_run t0 h) = true.
 Proof. exact chk_C12_model. Qed.
-
-Theorem chk_C12_timely_histories :
-  forall t0 h, wf_hist t0 h = true -> timely t0 h = true -> chk_C12 t0 h (model_run t0 h) = true.
-Proof. exact chk_C12_timely. Qed.
 
 (* the interface check in the words of the text: interval 0 disables it *)
 Theorem ip_check_constants :
@@ -100,7 +92,6 @@ Definition sample_history : list iter :=
 
 Example C12_nonvacuous :
   wf_hist 1000000 sample_history = true
-  /\ hazard_free 1000000 sample_history = true
   /\ chk_C12 1000000 sample_history (model_run 1000000 sample_history) = true
   /\ map o_wake (model_run 1000000 sample_history)
      = [Some 1005000; Some 1001000; Some 1000500; Some 1001000; Some 1002000; Some 1003000;
@@ -114,6 +105,5 @@ Print Assumptions no_spin_idle_iteration.
 Print Assumptions scheduler_invariant.
 Print Assumptions no_overdue_retransmission.
 Print Assumptions chk_C12_monitor_holds.
-Print Assumptions chk_C12_timely_histories.
 Print Assumptions ip_check_constants.
 Print Assumptions C12_nonvacuous.
